@@ -3850,3 +3850,43 @@ def _np_zeros3(I, shape, dtype=None, **kw):
             f: I.fresh_seq(t, I.namer.fresh(f"zeros.{f}"), n)
             for f, t in dtype.fields}))
     return _np_zeros_2(I, shape, dtype, **kw)
+
+
+LLF = z3.Function("LL", PS_, z3.RealSort())
+LIB["spec.LL"] = E.LibFunc("spec.LL", lambda I, v: LLF(_val(v)))
+
+
+# ---- C09: pools ------------------------------------------------------------
+@lib("numpy.random.permutation")
+def _np_permutation(I, n):
+    """a permutation of range(n): n distinct values covering [0, n)"""
+    if not (is_z3(n) or isinstance(n, int)):
+        raise Unsupported("np.random.permutation of an array")
+    n = to_int(n)
+    f = z3.Function(I.namer.fresh("perm"), z3.IntSort(), z3.IntSort())
+    g = z3.Function(I.namer.fresh("perm_inv"), z3.IntSort(), z3.IntSort())
+    i = z3.Int(I.namer.fresh("q_i"))
+    I.assume(z3.ForAll([i], z3.Implies(z3.And(0 <= i, i < n), z3.And(
+        0 <= f(i), f(i) < n, g(f(i)) == i)), patterns=[f(i)]))
+    I.assume(z3.ForAll([i], z3.Implies(z3.And(0 <= i, i < n), z3.And(
+        0 <= g(i), g(i) < n, f(g(i)) == i)), patterns=[g(i)]))
+    return Cell("arr", SymSeq(n, lambda q: f(to_int(q)), "Int"))
+
+
+@method("seq", "tolist")
+def _seq_tolist(I, b):
+    return Cell("list", _val(b))
+
+
+LPF = z3.Function("LPr", PS_, z3.RealSort())
+LIB["spec.LPr"] = E.LibFunc("spec.LPr", lambda I, v: LPF(_val(v)))
+LIB["spec.distinct"] = E.LibFunc("spec.distinct", lambda I, s: _distinct(I, s))
+
+
+def _distinct(I, s):
+    s = as_seq(I, s)
+    i = z3.Int(I.namer.fresh("q_i"))
+    j = z3.Int(I.namer.fresh("q_j"))
+    n = to_int(s.length)
+    return z3.ForAll([i, j], z3.Implies(
+        z3.And(0 <= i, i < j, j < n), s.get(i) != s.get(j)))
